@@ -447,7 +447,12 @@ fn interleaving_slice(ctx: &mut Ctx) {
     for n in ["a", "b", "c"] {
         std::fs::write(t.join(n), b"").unwrap();
     }
-    let cases: [(&[&str], &str); 4] = [
+    let cases: [(&[&str], &str); 8] = [
+        // two commands on the same file with find's own text between them (and a third after a failing one)
+        (&["il", "-sorted", "-printf", "[%f:", "-exec", "echo", "one", ";", "-printf", "<%f:", "-exec", "echo", "two", ";"], "[il:one\n<il:two\n[a:one\n<a:two\n[b:one\n<b:two\n[c:one\n<c:two\n"),
+        (&["il", "-sorted", "-printf", "[%f:", "-exec", "echo", "one", ";", "-printf", "<%f:", "-execdir", "echo", "two", ";", "-printf", "{%f:", "-exec", "echo", "three", ";"], "[il:one\n<il:two\n{il:three\n[a:one\n<a:two\n{a:three\n[b:one\n<b:two\n{b:three\n[c:one\n<c:two\n{c:three\n"),
+        (&["il", "-sorted", "-exec", "false", ";", "-o", "-printf", "no:", "-exec", "echo", "{}", ";"], "no:il\nno:il/a\nno:il/b\nno:il/c\n"),
+        (&["il", "-sorted", "-exec", "true", ";", "-printf", "yes:", "-exec", "echo", "{}", ";"], "yes:il\nyes:il/a\nyes:il/b\nyes:il/c\n"),
         (&["il", "-sorted", "-printf", "%p ", "-exec", "echo", "X", ";"], "il X\nil/a X\nil/b X\nil/c X\n"),
         (&["il", "-sorted", "-printf", "%p ", "-execdir", "echo", "X", ";"], "il X\nil/a X\nil/b X\nil/c X\n"),
         (&["il", "-sorted", "-printf", "<%f>", "-exec", "echo", "{}", ";", "-printf", "."], "<il>il\n.<a>il/a\n.<b>il/b\n.<c>il/c\n."),
